@@ -18,7 +18,7 @@ pub fn parse_query(query: &str) -> Result<Query, QueryError> {
         ParserError::ParserError(e_str) => QueryError::ParseError(e_str),
         _ => fatal!("{:?}", e),
     })?;
-    if ast.len() > 1 {
+    if ast.len() != 1 {
         return Err(QueryError::ParseError(format!(
             "Expected a single query statement, but there are {}",
             ast.len()
